@@ -34,6 +34,23 @@ LAT = 64.0
 # generators
 # --------------------------------------------------------------------------
 
+def pick_style(rng):
+    """'dyadic' (exact lattice), 'noise' (arbitrary floats) or 'decimal' (times
+    with 2-3 decimals as in annotation files: decimal near-ties with the default
+    thresholds, which must be caught by the margin)."""
+    u = rng.random()
+    return "dyadic" if u < 0.7 else ("noise" if u < 0.85 else "decimal")
+
+
+def off_lattice(rng, ts, style):
+    if style in (True, "dyadic"):
+        return ts
+    if style == "decimal":
+        q = rng.choice([2, 2, 3])
+        return sorted(round(max(0.0, t + rng.uniform(-0.004, 0.004)), q) for t in ts)
+    return sorted(max(0.0, t + rng.uniform(-0.004, 0.004)) for t in ts)
+
+
 def gen_ref(rng, lattice=True):
     n = rng.choice([0, 1, 2, 2, 3, 3, 4, 5, 6, 8, 10, 12, 15, 20, rng.randint(0, 20)])
     if n == 0:
@@ -51,8 +68,7 @@ def gen_ref(rng, lattice=True):
             step = rng.choice([0, 0, 1, 2, 16, 32, rng.randint(0, 50)])
         ts.append(ts[-1] + max(step, 0))
     out = [t / LAT for t in ts]
-    if not lattice:
-        out = sorted(max(0.0, t + rng.uniform(-0.004, 0.004)) for t in out)
+    out = off_lattice(rng, out, lattice)
     return out
 
 
@@ -85,8 +101,7 @@ def gen_est(rng, ref, lattice=True):
         ts = ts + [rng.choice(ts)]
     ts = sorted(max(t, 0) for t in ts)[:20]
     out = [t / LAT for t in ts]
-    if not lattice:
-        out = sorted(max(0.0, t + rng.uniform(-0.004, 0.004)) for t in out)
+    out = off_lattice(rng, out, lattice)
     return out
 
 
@@ -101,6 +116,8 @@ def gen_intervals(rng, lattice=True):
     n = rng.choice([0, 1, 1, 2, 3, 4, 5, 6, 8, 10, 14, 20])
     if n == 0:
         return np.zeros((0, 2))
+    dec = 6 if lattice == "noise" else rng.choice([2, 3, 5])
+    lattice = lattice in (True, "dyadic")
     grid = rng.choice([32, 32, 64]) if lattice else None
     t = rng.randrange(0, 3 * 64) if rng.random() < 0.5 else 0
     rows = []
@@ -114,14 +131,16 @@ def gen_intervals(rng, lattice=True):
         return a / grid
     a = a / 64.0
     noise = np.array([[rng.uniform(-2e-3, 2e-3) for _ in range(2)] for _ in range(n)])
-    a = np.round(np.abs(a + noise), 6)
-    a[:, 1] = np.maximum(a[:, 1], a[:, 0] + 1e-3)
+    a = np.round(np.abs(a + noise), dec)
+    a[:, 1] = np.maximum(a[:, 1], a[:, 0] + 1e-2)
     return a
 
 
 def gen_est_intervals(rng, ref, lattice=True):
     if rng.random() < 0.3 or len(ref) == 0:
         return gen_intervals(rng, lattice)
+    dec = 6 if lattice == "noise" else rng.choice([2, 3, 5])
+    lattice = lattice in (True, "dyadic")
     grid = 64.0
     b = sorted({int(round(x * grid)) for x in np.asarray(ref).ravel()})
     j = rng.choice([0, 1, 2, 8, 16, 32, 40])
@@ -135,8 +154,8 @@ def gen_est_intervals(rng, ref, lattice=True):
         return np.zeros((0, 2))
     a = np.array(list(zip(b[:-1], b[1:])), dtype=float) / grid
     if not lattice:
-        a = np.round(a + np.array([[rng.uniform(0, 4e-4), 0.0]] * len(a)), 6)
-        a[:, 1] = np.maximum(a[:, 1], a[:, 0] + 1e-3)
+        a = np.round(a + np.array([[rng.uniform(0, 4e-4), 0.0]] * len(a)), dec)
+        a[:, 1] = np.maximum(a[:, 1], a[:, 0] + 1e-2)
     return a
 
 
@@ -148,7 +167,7 @@ def beats_case(params):
     """params: dict name -> list of candidate values (defaults are produced by
     omitting the keyword)."""
     def make(rng):
-        lattice = rng.random() < 0.85
+        lattice = pick_style(rng)
         ref = gen_ref(rng, lattice)
         est = gen_est(rng, ref, lattice)
         kw = {}
@@ -162,7 +181,7 @@ def beats_case(params):
 
 def segment_case(params):
     def make(rng):
-        lattice = rng.random() < 0.85
+        lattice = pick_style(rng)
         ref = gen_intervals(rng, lattice)
         est = gen_est_intervals(rng, ref, lattice)
         kw = {}
@@ -324,8 +343,10 @@ def run(n_cases, seed, show_all):
             print("   class %s: %d disagreement(s)" % (key, len(recs)))
             if key.startswith("UNEXPLAINED"):
                 unexplained += len(recs)
-            limit = len(recs) if (show_all or key.startswith("UNEXPLAINED")) else 2
-            for args, kw, lv, ov, mg in recs[:min(limit, 40 if not show_all else limit)]:
+            # --all: every disagreement; otherwise 2 examples of a known class
+            # and up to 40 of an unexplained one
+            limit = len(recs) if show_all else (40 if key.startswith("UNEXPLAINED") else 2)
+            for args, kw, lv, ov, mg in recs[:limit]:
                 print("      a=%s b=%s kw=%s\n         library=%s oracle=%s margin=%.3g"
                       % (short(args[0]), short(args[1]), kw, lv, ov, mg))
     print("total time %.1fs; unexplained disagreements: %d" % (time.time() - t_start, unexplained))
